@@ -378,6 +378,40 @@ func (n *Node) SnapEnd(id uint64) error {
 	return nil
 }
 
+// BreakSnapshot makes the next cache snapshot of the shard fail for a reason other than "a snapshot is in
+// progress"; the returned function undoes it.
+//
+//	"disabled": Shard.SetCompactionsEnabled(false), the state Shard.Free (Store.monitorShards on an idle shard) leaves
+//	            behind until the next tick; Compactor.WriteSnapshot returns errSnapshotsDisabled
+//	"io":       a directory sits where the next snapshot file has to be created
+func (n *Node) BreakSnapshot(id uint64, kind string) (func(), error) {
+	sh, e, err := n.engine(id)
+	if err != nil {
+		return nil, err
+	}
+	switch kind {
+	case "disabled":
+		sh.SetCompactionsEnabled(false)
+		return func() { sh.SetCompactionsEnabled(true) }, nil
+	case "io":
+		g := e.FileStore.NextGeneration() // consumed; the snapshot will ask for the next one
+		var dirs []string
+		for k := 1; k <= 2; k++ {
+			d := filepath.Join(sh.Path(), fmt.Sprintf("%s.%s.%s", tsm1.DefaultFormatFileName(g+k, 1), tsm1.TSMFileExtension, tsm1.TmpTSMFileExtension))
+			if err := os.MkdirAll(filepath.Join(d, "x"), 0777); err != nil {
+				return nil, err
+			}
+			dirs = append(dirs, d)
+		}
+		return func() {
+			for _, d := range dirs {
+				os.RemoveAll(d)
+			}
+		}, nil
+	}
+	return nil, fmt.Errorf("unknown snapshot fault %q", kind)
+}
+
 type seriesElem struct {
 	name []byte
 	tags models.Tags
